@@ -33,6 +33,11 @@ fn req(op: &str, d: usize) -> Value {
            "e":{"a":1,"k":[],"ts":1,"h":1,"len":1},"a":1,"k":[],"kind":"read","res":"","val":[]})
 }
 
+thread_local! {
+    /// every 4th history concentrates on the useful-peer list (registrations of few peers, reads, drops and re-creations)
+    static PEER_FOCUS: std::cell::Cell<bool> = const { std::cell::Cell::new(false) };
+}
+
 pub fn gen_batches(r: &mut Rng, len: usize) -> Vec<Value> {
     let mut out = vec![];
     let mut now = 5u64;
@@ -43,7 +48,34 @@ pub fn gen_batches(r: &mut Rng, len: usize) -> Vec<Value> {
         let mut reqs = vec![];
         for _ in 0..n {
             let d = 1 + r.below(NDOCS);
-            let x = r.below(100);
+            let mut x = r.below(100);
+            if PEER_FOCUS.with(|c| c.get()) && r.chance(1, 2) {
+                // registration / read / drop / re-creation / open, in that proportion
+                let y = r.below(100);
+                let mut q = if y < 45 {
+                    let mut q = req("RegisterPeer", d);
+                    q["p"] = json!(1 + r.below(2));
+                    q
+                } else if y < 60 {
+                    req("GetPeers", d)
+                } else if y < 72 {
+                    req("Drop", d)
+                } else if y < 86 {
+                    let mut q = req("Import", d);
+                    q["kind"] = json!("write");
+                    q
+                } else {
+                    let mut q = req("Open", d);
+                    q["sync"] = json!(false);
+                    q
+                };
+                q["now"] = json!(now);
+                reqs.push(q);
+                continue;
+            }
+            if x >= 100 {
+                x = 99;
+            }
             let mut q = if x < 22 {
                 let mut q = req("Open", d);
                 q["sync"] = json!(r.chance(1, 2));
@@ -68,8 +100,11 @@ pub fn gen_batches(r: &mut Rng, len: usize) -> Vec<Value> {
                 let h = *r.pick(&[0i64, 1, 2]);
                 q["e"] = json!({"a":1 + r.below(2),"k":key_json(KEYS[r.below(5)]),"ts":1 + r.below(now as usize + 2),"h":h,"len": if h == 0 {0} else {1}});
                 q
-            } else if x < 64 {
+            } else if x < 62 {
                 req("SyncInit", d)
+            } else if x < 64 {
+                // the accepting side of a reconciliation: the opening message of an empty replica of the same document
+                req("SyncProcess", d)
             } else if x < 74 {
                 req("GetMany", d)
             } else if x < 78 {
@@ -95,6 +130,16 @@ pub fn gen_batches(r: &mut Rng, len: usize) -> Vec<Value> {
                 let mut q = req("Import", d);
                 q["kind"] = json!(if r.chance(1, 2) { "write" } else { "read" });
                 q
+            } else if x < 100 && r.chance(1, 2) {
+                // the useful-peer list through the actor (C17): registrations (often the same peer again) and reads
+                if r.chance(1, 3) {
+                    req("GetPeers", d)
+                } else {
+                    let mut q = req("RegisterPeer", d);
+                    let span = if r.chance(1, 2) { 2 } else { 7 };
+                    q["p"] = json!(1 + r.below(span));
+                    q
+                }
             } else if x < 100 && r.chance(1, 2) {
                 req("ExportSecret", d)
             } else {
@@ -166,6 +211,17 @@ async fn exec(w: Arc<World>, h: SyncHandle, q: Value, sub: Option<async_channel:
             fin!(h.insert_remote(ns, se, w.peers[0], ContentStatus::Missing).await, |_| json!([]))
         }
         "SyncInit" => fin!(h.sync_initial_message(ns).await, |_| json!([])),
+        "SyncProcess" => {
+            // the opening message of an empty replica of this document (it carries no entries: processing it stores nothing)
+            let msg = {
+                let mut st = iroh_docs::store::Store::memory();
+                st.import_namespace(iroh_docs::Capability::Write(doc_secret(&w, d).clone())).expect("import");
+                let mut info = st.load_replica_info(&ns).expect("info");
+                let mut rep = iroh_docs::verif::replica(&mut st, &mut info);
+                rep.sync_initial_message().expect("init")
+            };
+            fin!(h.sync_process_message(ns, msg, w.peers[0], Default::default()).await, |_| json!([]))
+        }
         "GetMany" => {
             let (tx, mut rx) = irpc::channel::mpsc::channel(4096);
             match h.get_many(ns, Query::all().include_empty().build(), tx).await {
@@ -218,6 +274,14 @@ async fn exec(w: Arc<World>, h: SyncHandle, q: Value, sub: Option<async_channel:
             }
         }
         "Flush" => fin!(h.flush_store().await, |_| json!([])),
+        "RegisterPeer" => {
+            let p = q["p"].as_u64().unwrap() as usize;
+            // (no await before the request is sent: the requests of a batch reach the actor in batch order)
+            fin!(h.register_useful_peer(ns, w.peers[p - 1]).await, |_| json!([]))
+        }
+        "GetPeers" => fin!(h.get_sync_peers(ns).await, |v: Option<Vec<[u8; 32]>>| {
+            json!(v.unwrap_or_default().iter().map(|p| w.peer_rank(p)).collect::<Vec<i64>>())
+        }),
         other => panic!("unknown actor op {other}"),
     }
     q
@@ -309,7 +373,9 @@ pub fn run(w: Arc<World>, seed: u64, rng: &mut Rng, schedules: Vec<Value>, n: us
         .map(|s| (s["ops"].as_array().cloned().unwrap_or_default(), s["backend"] == "file"))
         .collect();
     for i in 0..n {
+        PEER_FOCUS.with(|c| c.set(i % 4 == 3));
         runs.push((gen_batches(rng, if i % 3 == 0 { 10 } else { 40 }), i % 3 == 1));
+        PEER_FOCUS.with(|c| c.set(false));
     }
     for (i, (batches, file)) in runs.iter().enumerate() {
         let path = dir.join(format!("actor-{i}.redb"));
